@@ -56,6 +56,12 @@ impl<'a> Toks<'a> {
     pub fn ops(&mut self) -> R<Vec<Op>> {
         self.list(|t| t.op())
     }
+    /// all remaining tokens (consumes them)
+    pub fn rest(&mut self) -> Vec<&'a str> {
+        let r = self.toks[self.pos..].to_vec();
+        self.pos = self.toks.len();
+        r
+    }
     pub fn done(&self) -> R<()> {
         if self.pos == self.toks.len() {
             Ok(())
